@@ -288,6 +288,98 @@ func (c *Ctx) hugeInputs(name string) []wfInput {
 	return out
 }
 
+// independentInputs renders generated records with the HARNESS's own few lines of formatting code, not with
+// the library's writers: text a reader accepts must be a fixed point of the codec whoever wrote it (C11),
+// and a defect shared by writer and reader (a convention applied on one side only) cannot hide.
+func (c *Ctx) independentInputs(name string) []wfInput {
+	var out []wfInput
+	itoa := func(i int) string { return fmt.Sprint(i) }
+	for i := 0; i < 20; i++ {
+		var b bytes.Buffer
+		var want []string
+		switch name {
+		case "fasta":
+			for _, r := range c.fastaRecs() {
+				b.WriteString(">" + string(r.Name) + "\n")
+				for p := 0; p < len(r.Sequence); p += 60 {
+					b.Write(r.Sequence[p:min(p+60, len(r.Sequence))])
+					b.WriteString("\n")
+				}
+				want = append(want, faS(r))
+			}
+		case "fastq":
+			for _, r := range c.fastqRecs() {
+				b.WriteString("@" + string(r.Name) + "\n" + string(r.Sequence) + "\n+" + []string{"", string(r.Name), " x"}[c.rng.Intn(3)] + "\n" + string(r.Quals) + "\n")
+				want = append(want, fqS(r))
+			}
+		case "sam", "samh":
+			hs, rs := c.samFile()
+			for _, h := range hs {
+				b.WriteString(h + "\n")
+				if name == "samh" {
+					want = append(want, "H "+hx([]byte(h)))
+				}
+			}
+			for _, r := range rs {
+				// only the tag types whose text form the harness can state without the library: i, Z, A, H
+				tags := map[string]any{}
+				var names []string
+				for k, v := range r.Tags {
+					switch v.(type) {
+					case int, string, byte, []byte:
+						tags[k] = v
+						names = append(names, k)
+					}
+				}
+				r.Tags = tags
+				sort.Strings(names)
+				if c.rng.Intn(3) == 0 {
+					r.Rnext = []string{"=", "*", r.Rname}[c.rng.Intn(3)]
+				}
+				f := []string{r.Qname, itoa(int(r.Flag)), r.Rname, itoa(r.Pos), itoa(r.Mapq), r.Cigar, r.Rnext, itoa(r.Pnext), itoa(r.Tlen), r.Seq, r.Qual}
+				for _, k := range names {
+					switch v := tags[k].(type) {
+					case int:
+						f = append(f, k+":i:"+itoa(v))
+					case string:
+						f = append(f, k+":Z:"+v)
+					case byte:
+						f = append(f, k+":A:"+string([]byte{v}))
+					case []byte:
+						f = append(f, k+":H:"+fmt.Sprintf("%x", v))
+					}
+				}
+				b.WriteString(strings.Join(f, "\t") + "\n")
+				if name == "samh" {
+					want = append(want, shS(sam.SAMOrHeader{S: r}))
+				} else {
+					want = append(want, samS(r))
+				}
+			}
+		case "bed":
+			for _, r := range c.bedRecs() {
+				ints := func(l []int) string {
+					var p []string
+					for _, x := range l {
+						p = append(p, itoa(x))
+					}
+					return strings.Join(p, ",")
+				}
+				f := []string{r.Chrom, itoa(r.ChromStart), itoa(r.ChromEnd), r.Name, itoa(r.Score), r.Strand, itoa(r.ThickStart), itoa(r.ThickEnd),
+					fmt.Sprintf("%d,%d,%d", r.ItemRGB[0], r.ItemRGB[1], r.ItemRGB[2]), itoa(r.BlockCount), ints(r.BlockSizes), ints(r.BlockStarts)}
+				b.WriteString(strings.Join(f[:r.N], "\t") + "\n")
+				want = append(want, bedS(truncBed(r)))
+			}
+		default:
+			return nil
+		}
+		if b.Len() > 0 {
+			out = append(out, wfInput{b.Bytes(), joinItems(want), "text rendered by the harness, not by the library's writer"})
+		}
+	}
+	return out
+}
+
 func formatByName(name string) *format {
 	for _, g := range formats {
 		if g.name == name {
@@ -300,12 +392,14 @@ func formatByName(name string) *format {
 // specialCases: decode every special input whole; the records written must come back.
 func specialCases(c *Ctx, name string) {
 	f := formatByName(name)
-	for _, in := range c.specialInputs(name) {
+	for _, in := range append(c.specialInputs(name), c.independentInputs(name)...) {
 		items, st := f.decode(bytes.NewReader(in.data), 0, len(in.data)+16)
 		got := itemsStr(items, st)
 		oracle := ""
 		if got != in.want {
 			oracle = fmt.Sprintf("%s: read(write(records)) != records (%s): got %s", name, in.desc, trunc(got, 100))
+		} else if fp := safe(func() string { return fixedPoint(f, in.data) }); fp != "" {
+			oracle = fp
 		}
 		c.add(Case{Op: decOpLine(f, "e", in.data), Impl: got, Kind: "special-input", Nontrivial: true, Oracle: oracle,
 			Note: fmt.Sprintf("%s input, %s: %q…", name, in.desc, trunc(string(in.data), 60))})
